@@ -1,6 +1,7 @@
 package main
 
 import (
+	"crypto/sha256"
 	"errors"
 	"fmt"
 	"math/big"
@@ -24,7 +25,7 @@ import (
 func init() {
 	register(stream{
 		name: "chain",
-		rule: "real signed delegations (sealed, then decoded) and invocations over a pool of 5 Ed25519 principals, checked with ExecutionAllowed / ExecutionAllowedWithArgsHook against a map-backed loader. Families: (principals) every chain of ≤ K links (K=2 quick, 3 thorough) over every (issuer, audience, subject∈{0,1,2,absent}) assignment × every invocation (issuer, subject) with a varying audience; (commands) conforming chains of 1–3 links with every assignment of a 6-command lattice (top, parent, child, sibling, shared textual prefix) to invocation and links; (time) every present/absent/past/future combination of not-before and expiration on the invocation and each link; (policy) constraining statements distributed over every link × argument maps, with and without an argument hook (replacing, failing); (random) chains of ≤ 8 (40 thorough) links with 0–2 deviations of any kind at any position, missing and duplicated proofs, irrelevant fields varied; (histories) the same invocation token validated several times while the loader's content, the argument hook and the wall clock (a bound two seconds away) change between validations. Added later: every scenario is decided FIVE ways on one token (twice in a row; through the hook entry point with an identity hook; with a hook that first validates an unrelated invocation; with a hook that first validates the scenario's repaired twin) and each verdict is held against the model; after construction the caller adds a key to the Args value it handed in (the token must not change); (twins) principals 5–9 = the key bytes of 0–4 under another key-type codec at every naming position; (key-types) RSA, P-256 and secp256k1 principals at every role, delegations decoded and as constructed; (command-pairs) every ordered pair of valid commands ≤ 4 (5) bytes over {/,a,b} as delegated/invoked and root/leaf, decided one after the other; (after-root, variant-cid, long-then-cut) proofs listed after the root, links named by another CID over the same digest, a 12-link chain alternating with cut versions of itself; (policy-long) 15…1000 always-true statements around the deciding one; (fresh-nbf, iat-future) constructed delegations with not-before = now, invocations issued in the future over not-yet-active links; (shared-policies) delegations built from policy slices that share one backing array; IsValidAt probes at years 1…100000 and 2^53-1 s.; (policy-optional) every operator over an optional selector on missing, null and present arguments at every link; (policy-neighbours) neighbouring links with policies of the same shape over different arguments, and the same statement over values of different kinds that print alike (100 / 100.0, bytes / their DAG-JSON map); (policy-non-finite) −Inf, +Inf and NaN arguments (own and from the hook) under every ordering statement; histories with a hook that overrides values inside the writeable clone it was given; (policy-beyond-int64) hand-assembled arguments and hook results holding an integer beyond int64 under every ordering statement; (policy-string-slice) slices of string arguments with multi-byte characters; (policy-whole-args) statements over the whole argument map and its value list, arguments supplied sorted and unsorted; (time-far) bounds some 285 years away; (command-multibyte) commands with multi-byte characters sharing prefixes that end inside or right after a character; (command-fold) commands differing only by lowercase letters that Unicode case folding equates (σ/ς, µ/μ, ſ/s, ı/i, θ/ϑ, β/ϐ); (command-concat) (delegated, invoked) pairs whose texts concatenate to the same string, decided one after the other in both orders. (case-twins) principals 13–17 = the identifier of 0–4 with the case of one letter flipped, at every naming position; (aligned-repeat) rule-conforming chains in which one delegation occurs twice or the subject reappears; (loader-error) a loader that reports an error of its own (not \"not found\") for one proof of a conforming chain, with and without handing the token over, both entry points; policies that use one selector twice (first where its failure does not decide) and connectives/quantifiers with one operand over missing required and one over missing optional data. The same arguments put together by the invoker through several options (WithArguments then WithArgument, WithArgument for each, WithArguments twice) on conforming chains with policies: how the arguments were assembled is irrelevant to authorization. Non-trivial = the chain has ≥ 1 link and at most two clause groups fail. Distinct = distinct protocol lines.",
+		rule: "real signed delegations (sealed, then decoded) and invocations over a pool of 5 Ed25519 principals, checked with ExecutionAllowed / ExecutionAllowedWithArgsHook against a map-backed loader. Families: (principals) every chain of ≤ K links (K=2 quick, 3 thorough) over every (issuer, audience, subject∈{0,1,2,absent}) assignment × every invocation (issuer, subject) with a varying audience; (commands) conforming chains of 1–3 links with every assignment of a 6-command lattice (top, parent, child, sibling, shared textual prefix) to invocation and links; (time) every present/absent/past/future combination of not-before and expiration on the invocation and each link; (policy) constraining statements distributed over every link × argument maps, with and without an argument hook (replacing, failing); (random) chains of ≤ 8 (40 thorough) links with 0–2 deviations of any kind at any position, missing and duplicated proofs, irrelevant fields varied; (histories) the same invocation token validated several times while the loader's content, the argument hook and the wall clock (a bound two seconds away) change between validations. Added later: every scenario is decided FIVE ways on one token (twice in a row; through the hook entry point with an identity hook; with a hook that first validates an unrelated invocation; with a hook that first validates the scenario's repaired twin) and each verdict is held against the model; after construction the caller adds a key to the Args value it handed in (the token must not change); (twins) principals 5–9 = the key bytes of 0–4 under another key-type codec at every naming position; (key-types) RSA, P-256 and secp256k1 principals at every role, delegations decoded and as constructed; (command-pairs) every ordered pair of valid commands ≤ 4 (5) bytes over {/,a,b} as delegated/invoked and root/leaf, decided one after the other; (after-root, variant-cid, long-then-cut) proofs listed after the root, links named by another CID over the same digest, a 12-link chain alternating with cut versions of itself; (policy-long) 15…1000 always-true statements around the deciding one; (fresh-nbf, iat-future) constructed delegations with not-before = now, invocations issued in the future over not-yet-active links; (shared-policies) delegations built from policy slices that share one backing array; IsValidAt probes at years 1…100000 and 2^53-1 s.; (policy-optional) every operator over an optional selector on missing, null and present arguments at every link; (policy-neighbours) neighbouring links with policies of the same shape over different arguments, and the same statement over values of different kinds that print alike (100 / 100.0, bytes / their DAG-JSON map); (policy-non-finite) −Inf, +Inf and NaN arguments (own and from the hook) under every ordering statement; histories with a hook that overrides values inside the writeable clone it was given; (policy-beyond-int64) hand-assembled arguments and hook results holding an integer beyond int64 under every ordering statement; (policy-string-slice) slices of string arguments with multi-byte characters; (policy-whole-args) statements over the whole argument map and its value list, arguments supplied sorted and unsorted; (time-far) bounds some 285 years away; (command-multibyte) commands with multi-byte characters sharing prefixes that end inside or right after a character; (command-fold) commands differing only by lowercase letters that Unicode case folding equates (σ/ς, µ/μ, ſ/s, ı/i, θ/ϑ, β/ϐ); (command-concat) (delegated, invoked) pairs whose texts concatenate to the same string, decided one after the other in both orders. (case-twins) principals 13–17 = the identifier of 0–4 with the case of one letter flipped, at every naming position; (aligned-repeat) rule-conforming chains in which one delegation occurs twice or the subject reappears; (loader-error) a loader that reports an error of its own (not \"not found\") for one proof of a conforming chain, with and without handing the token over, both entry points; policies that use one selector twice (first where its failure does not decide) and connectives/quantifiers with one operand over missing required and one over missing optional data. The same arguments put together by the invoker through several options (WithArguments then WithArgument, WithArgument for each, WithArguments twice) on conforming chains with policies: how the arguments were assembled is irrelevant to authorization. Principals without an extractable key (well-formed did:key texts whose material is no key of the announced type) in every role, issuers included, two different ones where the rule wants the same; invocations without any proof, self-issued or not, expired or not, with and without a hook. Non-trivial = the chain has ≥ 1 link and at most two clause groups fail. Distinct = distinct protocol lines.",
 		run:  runChainStream,
 		eval: evalChain,
 		cmp:  cmpChain,
@@ -270,12 +271,18 @@ func buildDlg(desc string) (sealedDlg, error) {
 	if exp != nil {
 		opts = append(opts, delegation.WithExpirationIn(*exp))
 	}
-	if ps[iss].priv == nil {
-		return sealedDlg{}, fmt.Errorf("principal %d cannot issue", iss)
-	}
 	tkn, err := delegation.New(ps[iss].did, ps[aud].did, cmd, pol, opts...)
 	if err != nil {
 		return sealedDlg{}, err
+	}
+	if ps[iss].priv == nil {
+		// an issuer the harness has no key for (a DID that parses but holds no extractable key): the delegation exists as a
+		// constructed value only, filed under a link derived from its description (the validator never sees sealed bytes)
+		h := sha256.Sum256([]byte("keyless:" + desc))
+		mh, _ := multihash.Encode(h[:], multihash.SHA2_256)
+		s := sealedDlg{tkn, cid.NewCidV1(0x71, mh), tkn}
+		dlgCache[desc] = s
+		return s, nil
 	}
 	data, c, err := tkn.ToSealed(ps[iss].priv)
 	if err != nil {
@@ -1363,6 +1370,41 @@ func runChainStream(c *ctx) error {
 		d := conforming(n)
 		d.aud = 5
 		c.emitScenario(d, "twins")
+	}
+	// (1b') principals WITHOUT an extractable key (5–9: well-formed did:key texts whose key material is not a key of the announced
+	// type) in every role, issuers included — such delegations exist as constructed values only. Two different ones are two
+	// principals: a chain that names one where the rule wants the other is refused like any other misalignment.
+	{
+		mk := func(rootIss, rootSub, rootAud, leafIss, invSub int, two bool) scenario {
+			s := scenario{iss: 1, sub: invSub, aud: -1, cmd: "/", irr: "rawdlg"}
+			if two {
+				s.links = []link{{iss: leafIss, aud: 1, sub: rootSub, cmd: "/"}, {iss: rootIss, aud: rootAud, sub: rootSub, cmd: "/"}}
+			} else {
+				s.links = []link{{iss: rootIss, aud: 1, sub: rootSub, cmd: "/"}}
+			}
+			return s
+		}
+		c.emitScenario(mk(5, 5, 1, 0, 5, false), "keyless") // conforming: root issued by its keyless subject to the invoker
+		c.emitScenario(mk(5, 5, 1, 0, 6, false), "keyless") // the invocation names another keyless subject
+		c.emitScenario(mk(5, 6, 1, 0, 6, false), "keyless") // the last delegation is not issued by its subject
+		c.emitScenario(mk(5, 5, 6, 6, 5, true), "keyless")  // conforming two-link chain through a keyless middle principal
+		c.emitScenario(mk(5, 5, 6, 7, 5, true), "keyless")  // the leaf is issued by another keyless principal than the root's audience
+		c.emitScenario(mk(5, 5, 6, 6, 7, true), "keyless")  // … and the invocation names a third one as subject
+		c.emitScenario(mk(8, 8, 9, 9, 8, true), "keyless")
+		c.emitScenario(mk(8, 8, 9, 5, 8, true), "keyless")
+	}
+	// (1b") invocations WITHOUT any proof, issued by their own subject or by someone else, unexpired, expired and without
+	// expiration, also with an argument hook: there is no chain, so nothing is allowed — and an expired one is refused whatever
+	// else is said about it
+	for _, iss := range []int{0, 1} {
+		for _, sub := range []int{0, 1} {
+			for _, exp := range []string{"", "-7200", "7200"} {
+				for _, hook := range []string{"", "m()"} {
+					s := scenario{iss: iss, sub: sub, aud: -1, cmd: "/", exp: exp, hook: hook}
+					c.emitScenario(s, "no-proof")
+				}
+			}
+		}
 	}
 	// (1c) principals of every key algorithm at every role of a conforming chain, with decoded and with
 	// constructed delegations
